@@ -395,3 +395,32 @@ Fixpoint iter {A} (n : nat) (f : A -> A) (x : A) : A :=
 (* the trajectory a program with one-step map [T] writes from [c0]: n frames *)
 Fixpoint orbit (T : conf -> conf) (n : nat) (c0 : conf) : list conf :=
   match n with O => [] | S m => c0 :: orbit T m (T c0) end.
+
+(* ---------------------------------------------------------------- process groups
+   What "SIGTERM to the group" (PKilled) relies on when the configured command is a launcher
+   (wrapper script, MPI launcher) that runs the MD program as ITS child.  A process table is a
+   list of processes (pid, process group, alive).  The engines start their command with
+   preexec_fn=os.setsid, so the direct child leads a new group (pgid = pid); a process started
+   by a member of the group inherits the group (fork). *)
+Record proc := mkProc { pr_pid : Z; pr_pgid : Z; pr_alive : bool }.
+
+Definition stop_proc (p : proc) : proc := mkProc (pr_pid p) (pr_pgid p) false.
+
+(* os.killpg(g, SIGTERM): every process of group g (default disposition or a handler that
+   ends the process, as the MD programs have) *)
+Definition sig_group (g : Z) (tb : list proc) : list proc :=
+  map (fun p => if pr_pgid p =? g then stop_proc p else p) tb.
+
+(* Popen.send_signal / terminate: the one process with that pid *)
+Definition sig_pid (x : Z) (tb : list proc) : list proc :=
+  map (fun p => if pr_pid p =? x then stop_proc p else p) tb.
+
+(* fork by process [parent]: the child inherits the parent's group *)
+Definition spawn (parent child : Z) (tb : list proc) : list proc :=
+  match find (fun p => pr_pid p =? parent) tb with
+  | Some p => tb ++ [mkProc child (pr_pgid p) true]
+  | None => tb
+  end.
+
+Definition in_group (g : Z) (tb : list proc) : list proc := filter (fun p => pr_pgid p =? g) tb.
+Definition any_alive (tb : list proc) : bool := existsb pr_alive tb.
